@@ -6,4 +6,5 @@ set_option maxRecDepth 100000
 theorem nuclides_resolve_q1 : Gen.PT.nuclidesQ1.all nuclideRowOk = true := by decide +kernel
 theorem nuclides_anycase_q1 : Gen.PT.nuclidesQ1.all nuclideRowAnycaseOk = true := by decide +kernel
 theorem tree_rows_q1 : Gen.PT.nuclidesQ1.all treeRowOk = true := by decide +kernel
+theorem masses_float_q1 : Gen.PT.nuclidesQ1.all massFloatOk = true := by decide +kernel
 end QcelVerif.PT
